@@ -191,6 +191,8 @@ class StreamAdapter:
             sock.clear(self.rxop)
         elif name == "Cat":
             res = {"t": "bytes", "v": dec(x.catRxbs())}
+        elif name == "Clear":
+            x.clearRxbs()
         elif name == "Connect":
             if act["c"] != "na":
                 sock.push("connect_ex", dn.rc(0 if act["c"] == "ok" else errno.EINPROGRESS))
@@ -249,7 +251,7 @@ def _label(act):
         return "Connect(%s,%s)" % (act["c"], act["h"])
     if a == "Queue":
         return "Queue(%s)" % (list(act["s"]),)
-    if a in ("Cat", "Init"):
+    if a in ("Cat", "Clear", "Init"):
         return a
     return "%s(%s)" % (a, ",".join(r["k"] + (str(r["n"]) if r["k"] == "part" else str(list(r["d"])) if r["k"] == "data" else "")
                                    for r in act["s"]))
@@ -260,21 +262,22 @@ def _jr(r):
     return {"k": r["k"], "n": r["n"], "d": list(r["d"])}
 
 
-def random_trace(rng, flavor, nsteps):
+def random_trace(rng, flavor, nsteps, allow_cut=True):
+    """one seeded random execution; allow_cut=False: the peer never closes / the connection is never lost (long runs)"""
     ad = StreamAdapter(flavor)
     try:
-        return _random_trace(rng, ad, flavor, nsteps)
+        return _random_trace(rng, ad, flavor, nsteps, allow_cut)
     finally:
         ad.close()
 
 
-def _random_trace(rng, ad, flavor, nsteps):
+def _random_trace(rng, ad, flavor, nsteps, allow_cut):
     serial, client = ad.serial, ad.client
+    nocut = serial or not allow_cut
     evs = [{"ev": "Init", "flavor": flavor}]
-    prev = ad.project()
-    prev["delivered"] = ()
     after_cut = 0
-    nb = 0
+    nwire = ndl = ntxlog = nrxlog = 0
+    wl_all, rl_all = [], []
     for _ in range(nsteps):
         p = rng.random()
         connected = (not client) or ad.x.connected
@@ -304,7 +307,7 @@ def _random_trace(rng, ad, flavor, nsteps):
                     kinds.append({"k": "part", "n": rng.randint(1, 5), "d": ()})
                 elif q < 0.88:
                     kinds.append({"k": "zero", "n": 0, "d": ()})
-                elif q < 0.985 or serial:
+                elif q < 0.985 or nocut:
                     kinds.append({"k": "block", "n": 0, "d": ()})
                 else:
                     kinds.append({"k": "loss", "n": 0, "d": ()})
@@ -319,48 +322,62 @@ def _random_trace(rng, ad, flavor, nsteps):
                 kinds.append({"k": "block", "n": 0, "d": ()})
             elif serial:
                 kinds.append({"k": "empty", "n": 0, "d": ()})
-            elif q < 0.985:
+            elif q < 0.985 or nocut:
                 pass                      # the script simply ends: the double then answers would-block
             elif q < 0.993:
                 kinds.append({"k": "closed", "n": 0, "d": ()})
             else:
                 kinds.append({"k": "loss", "n": 0, "d": ()})
             act["s"] = tuple(kinds)
-        elif not serial:
+        elif not serial and rng.random() < 0.7:
             name = "Cat"
         else:
-            continue
+            name = "Clear"
         res, used = ad.call(name, act)
-        cur = ad.project()
-        cur["delivered"] = dec(ad.sock.delivered)
-        ev = {"ev": name, "res": _jres(res), "txes": [list(m) for m in cur["txes"]], "rxbs": list(cur["rxbs"]),
-              "sent": list(cur["wire"][len(prev["wire"]):]), "dl": list(cur["delivered"][len(prev["delivered"]):])}
-        if cur["wire"][:len(prev["wire"])] != prev["wire"] or cur["delivered"][:len(prev["delivered"])] != prev["delivered"]:
+        x, sock = ad.x, ad.sock
+        wire_all = sock.written if serial else sock.sent
+        ev = {"ev": name, "res": _jres(res), "txes": [list(dec(m)) for m in x.txes], "rxbs": list(dec(x.rxbs)),
+              "sent": list(dec(wire_all[nwire:])), "dl": list(dec(sock.delivered[ndl:]))}
+        if len(wire_all) < nwire or len(sock.delivered) < ndl:
             raise AssertionError("the double's record of accepted bytes is not append-only")
+        nwire, ndl = len(wire_all), len(sock.delivered)
         if name == "Queue":
             ev["m"] = list(act["m"])
         elif name == "Connect":
             ev["c"], ev["h"] = act["c"], act["h"]
-        elif name != "Cat":
+        elif name not in ("Cat", "Clear"):
             ev["s"] = [_jr(r) for r in used]
         if not serial:
-            wl, rl = cur["wlog"], cur["rlog"]
-            if wl[:len(prev["wlog"])] != prev["wlog"] or rl[:len(prev["rlog"])] != prev["rlog"]:
-                # a wire log that rewrites its past: hand the whole log over so that the specification rejects the step
-                ev["wl"], ev["rl"] = [-1] + list(wl), [-1] + list(rl)
-            else:
-                ev["wl"], ev["rl"] = list(wl[len(prev["wlog"]):]), list(rl[len(prev["rlog"]):])
-            ev["cutoff"] = cur["cutoff"]
+            # only what this call added to the two sides of the wire log (the whole log is checked once at the end)
+            tx_new, ntxlog = _log_tail(ad.wl.txLog, ntxlog)
+            rx_new, nrxlog = _log_tail(ad.wl.rxLog, nrxlog)
+            ev["wl"] = list(dec(b"".join(p for (k, a, p) in dn.parse_wirelog(tx_new) if k == b"TX")))
+            ev["rl"] = list(dec(b"".join(p for (k, a, p) in dn.parse_wirelog(rx_new) if k == b"RX")))
+            wl_all.extend(ev["wl"])
+            rl_all.extend(ev["rl"])
+            ev["cutoff"] = bool(x.cutoff)
         if client:
-            ev["connected"], ev["accepted"] = cur["connected"], cur["accepted"]
+            ev["connected"], ev["accepted"] = bool(x.connected), bool(x.accepted)
         evs.append(ev)
-        prev = cur
-        nb += 1
-        if not serial and cur["cutoff"]:
+        if not serial and x.cutoff:
             after_cut += 1
             if after_cut > 6:
                 break
+    if not serial:
+        full = ad.project()
+        if list(full["wlog"]) != wl_all or list(full["rlog"]) != rl_all:
+            # a wire log that rewrote its past: a final event the specification cannot accept
+            evs.append({"ev": "ServiceTx", "s": [], "res": {"t": "none"}, "txes": [list(dec(m)) for m in ad.x.txes],
+                        "rxbs": list(dec(ad.x.rxbs)), "sent": [], "dl": [], "wl": [-1], "rl": [-1], "cutoff": bool(ad.x.cutoff),
+                        "connected": bool(getattr(ad.x, "connected", True)), "accepted": bool(getattr(ad.x, "accepted", True))})
     return evs
+
+
+def _log_tail(log, off):
+    """bytes written to a BytesIO log since offset off (leaves the position at the end, where WireLog appends)"""
+    log.seek(off)
+    new = log.read()
+    return new, off + len(new)
 
 
 def _jres(res):
@@ -377,12 +394,12 @@ def trace_cfg():
 
 
 ACTIONS = {
-    "client": ["Queue", "ServiceTx", "ServiceRx", "ServiceRxOnce", "Cat", "Connect"],
-    "clienttls": ["Queue", "ServiceTx", "ServiceRx", "ServiceRxOnce", "Cat", "Connect"],
-    "incomer": ["Queue", "ServiceTx", "ServiceRx", "ServiceRxOnce", "Cat"],
-    "incomertls": ["Queue", "ServiceTx", "ServiceRx", "ServiceRxOnce", "Cat"],
-    "serial": ["Queue", "ServiceTx", "ServiceTxOnce", "ServiceRx", "ServiceRxOnce"],
-    "device": ["Queue", "ServiceTx", "ServiceTxOnce", "ServiceRx", "ServiceRxOnce"],
+    "client": ["Queue", "ServiceTx", "ServiceRx", "ServiceRxOnce", "Cat", "Clear", "Connect"],
+    "clienttls": ["Queue", "ServiceTx", "ServiceRx", "ServiceRxOnce", "Cat", "Clear", "Connect"],
+    "incomer": ["Queue", "ServiceTx", "ServiceRx", "ServiceRxOnce", "Cat", "Clear"],
+    "incomertls": ["Queue", "ServiceTx", "ServiceRx", "ServiceRxOnce", "Cat", "Clear"],
+    "serial": ["Queue", "ServiceTx", "ServiceTxOnce", "ServiceRx", "ServiceRxOnce", "Clear"],
+    "device": ["Queue", "ServiceTx", "ServiceTxOnce", "ServiceRx", "ServiceRxOnce", "Clear"],
 }
 
 
@@ -394,7 +411,7 @@ def run_c24(ctx):
                 "scripts run on the real classes and validated by TLC against TxStreamTrace.tla. distinct = graph edges + accepted traces")
     ctx.assume("TLC, vf/doubles_net.py (ScriptedSocket, FakeTlsContext, ScriptedSerial, FakeOsModule) and the projection functions are trusted")
     ctx.assume("ssl is not modelled: the TLS classes run over a FakeTlsContext and the double raises ssl.SSLWant*Error below them")
-    consts = ctx.pick({"MaxMsgs": 2, "MaxLen": 3, "MaxRx": 3, "MaxChunks": 2}, {"MaxMsgs": 3, "MaxLen": 4, "MaxRx": 4, "MaxChunks": 3})
+    consts = ctx.pick({"MaxMsgs": 2, "MaxLen": 3, "MaxRx": 3, "MaxChunks": 2}, {"MaxMsgs": 3, "MaxLen": 3, "MaxRx": 4, "MaxChunks": 2})
     modes = ["tx", "rx", "both"]
     total = cov = 0
     dot = env.subdir("c24") + "/txstream.dot"
@@ -435,13 +452,13 @@ def run_c24(ctx):
     # binding B
     rng = random.Random(ctx.seed)
     acc = ntr = 0
-    plan = ctx.pick([(40, 150)], [(400, 300), (4, 10000)])
+    plan = ctx.pick([(40, 150)], [(300, 300), (1, 10000)])
     jobs = []
     for (count, steps) in plan:
-        trs = [random_trace(rng, fl, steps) for fl in FLAVORS for _ in range(count)]
+        trs = [random_trace(rng, fl, steps, allow_cut=(steps < 1000)) for fl in FLAVORS for _ in range(count)]
         rng.shuffle(trs)
-        jobs.append(("TxStreamTrace", trace_cfg(), trs, ctx.pick(120, 200) if steps < 1000 else 1))
-    outs = validate_jobs(jobs, SPEC_DIR, quick=ctx.quick)
+        jobs.append(("TxStreamTrace", trace_cfg(), trs, ctx.pick(120, 150) if steps < 1000 else 1))
+    outs = validate_jobs(jobs, SPEC_DIR, quick=ctx.quick, timeout=7200)
     for (_, _, trs, _), out in zip(jobs, outs):
         ntr += len(trs)
         ctx.states += out.states
